@@ -296,8 +296,17 @@ func btcdVerdict(s *spend, fs flagSet, sigCache *txscript.SigCache, cb func(*txs
 	if err != nil {
 		return err, "constructor"
 	}
-	if err := vm.Execute(); err != nil {
-		return err, "execute"
+	// verification reads the transaction; it must not change it (the same object is verified
+	// again by later consumers: mempool acceptance, then template generation, then the block)
+	var before, after bytes.Buffer
+	_ = mtx.Serialize(&before)
+	execErr := vm.Execute()
+	_ = mtx.Serialize(&after)
+	if !bytes.Equal(before.Bytes(), after.Bytes()) {
+		return fmt.Errorf("MUTATED: script verification changed the transaction it verified (%d -> %d bytes)", before.Len(), after.Len()), "mutated"
+	}
+	if execErr != nil {
+		return execErr, "execute"
 	}
 	return nil, ""
 }
@@ -379,6 +388,9 @@ func compare(t *rapid.T, rec *ev.Rec, s *spend, fs flagSet) ms.Result {
 	err, stage := btcdVerdict(s, fs, sigCache, nil)
 	if err != nil && strings.HasPrefix(err.Error(), "PANIC") {
 		t.Fatalf("btcd panicked: %v\nmodel: %s\n%s", err, r, s.describe(fs))
+	}
+	if err != nil && strings.HasPrefix(err.Error(), "MUTATED") {
+		t.Fatalf("%v\nmodel: %s\n%s", err, r, s.describe(fs))
 	}
 	if (err == nil) != r.Valid() {
 		if sig := knownSignature(s, fs, r, err); sig != "" &&
